@@ -141,7 +141,7 @@ func (t *Tables) validForms(base string) []string {
 // both sides; every id against itself in every form and three case variants; exceptions on a
 // rotating subset.
 func TestC02_Families(t *testing.T) {
-	rec := NewRecorder("C02", "families", "EVERY ordered pair of ids inside every family of the shipped table x forms {plain,+,-only,-or-later} on both sides; every family id against itself in every form x {listed,lower,upper} case; exceptions {none,E1,E2} on both sides for a rotating subset; "+c02Rule)
+	rec := NewRecorder("C02", "families", "EVERY ordered pair of ids inside every family of the shipped table, and every family id against every listed id that shares its name stem but is outside the family, x forms {plain,+,-only,-or-later} on both sides; every family id against itself in every form x {listed,lower,upper} case; exceptions {none,E1,E2} on both sides for a rotating subset; "+c02Rule)
 	rec.Exhaustive = true
 	defer rec.Finish(t)
 	tb := Tbl()
@@ -149,6 +149,12 @@ func TestC02_Families(t *testing.T) {
 	var jobs []job
 	e1, e2 := tb.Exceptions[0], tb.Exceptions[len(tb.Exceptions)/2]
 	n := 0
+	cousins := map[string][]string{}
+	for _, id := range tb.AllLic {
+		if v := ParseVer(id); v.OK {
+			cousins[v.Stem] = append(cousins[v.Stem], id)
+		}
+	}
 	for _, fam := range tb.Ranges {
 		var ids []string
 		seen := map[string]bool{}
@@ -174,6 +180,19 @@ func TestC02_Families(t *testing.T) {
 							ex := excs[(n/7)%len(excs)]
 							jobs = append(jobs, job{tb.MakeLicTerm(x, fx, 0, ex[0], 0, "", ""), tb.MakeLicTerm(y, fy, 0, ex[1], uint32(n%3), "", "")})
 						}
+					}
+				}
+			}
+			// "cousins": listed ids that share x's name stem but sit outside this table family
+			// (GFDL-1.1-invariants-or-later, GPL-2.0-with-GCC-exception, CC-BY-3.0-AT, ...)
+			for _, y := range cousins[ParseVer(x).Stem] {
+				if seen[y] {
+					continue
+				}
+				for _, fx := range tb.validForms(x) {
+					for _, fy := range tb.validForms(y) {
+						jobs = append(jobs, job{tb.MakeLicTerm(x, fx, 0, "", 0, "", ""), tb.MakeLicTerm(y, fy, 0, "", 0, "", "")},
+							job{tb.MakeLicTerm(y, fy, 0, "", 0, "", ""), tb.MakeLicTerm(x, fx, 0, "", 0, "", "")})
 					}
 				}
 			}
